@@ -23,6 +23,7 @@ import threading
 
 from stevedore import extension
 
+from orquesta import exceptions as exc
 from orquesta.utils import expression as expr_util
 from orquesta.utils import plugin as plugin_util
 
@@ -132,7 +133,12 @@ def validate(statement):
 
 def evaluate(statement, data=None):
     if isinstance(statement, dict):
-        return {evaluate(k, data=data): evaluate(v, data=data) for k, v in statement.items()}
+        try:
+            return {evaluate(k, data=data): evaluate(v, data=data) for k, v in statement.items()}
+        except TypeError as e:
+            # The evaluated value of a key is not hashable (i.e. list or dict).
+            msg = "Unable to evaluate expression '%s'. %s: %s"
+            raise exc.ExpressionEvaluationException(msg % (statement, e.__class__.__name__, str(e)))
 
     elif isinstance(statement, list):
         return [evaluate(item, data=data) for item in statement]
